@@ -37,6 +37,7 @@ import (
 
 	"github.com/zitadel/oidc/v3/pkg/client/rp"
 	"github.com/zitadel/oidc/v3/pkg/oidc"
+	"github.com/zitadel/oidc/v3/pkg/op"
 
 	"verif/internal/ev"
 	"verif/internal/keys"
@@ -669,9 +670,108 @@ func s256(v string) string {
 	return base64.RawURLEncoding.EncodeToString(h[:])
 }
 
+// ---------- (c5) verifier objects built once and used for many clients ----------
+
+// opVerifiers are the provider-side verifier objects an application may build once and keep (the Provider builds
+// them per request; the exported constructors make sharing them a legitimate use).
+type opVerifiers struct {
+	profile *op.JWTProfileVerifier
+	access  *op.AccessTokenVerifier
+	hint    *op.IDTokenHintVerifier
+}
+
+func newOPVerifiers(st op.Storage, issuer string) *opVerifiers {
+	ks := &op.OpenIDKeySet{Storage: st}
+	return &opVerifiers{
+		profile: op.NewJWTProfileVerifier(st, issuer, time.Hour, time.Second),
+		access:  op.NewAccessTokenVerifier(issuer, ks, op.WithSupportedAccessTokenSigningAlgorithms("RS256", "ES256", "PS256", "EdDSA")),
+		hint:    op.NewIDTokenHintVerifier(issuer, ks, op.WithSupportedIDTokenHintSigningAlgorithms("RS256", "ES256", "PS256", "EdDSA")),
+	}
+}
+
+func (v *opVerifiers) watch(w *watch, name string) {
+	w.structPtr(name+".JWTProfileVerifier", "C20:mutation:JWTProfileVerifier.", v.profile)
+	w.structPtr(name+".AccessTokenVerifier", "C20:mutation:AccessTokenVerifier.", v.access)
+	w.structPtr(name+".IDTokenHintVerifier", "C20:mutation:IDTokenHintVerifier.", v.hint)
+}
+
+// assertionOf verifies an assertion of clientID (c20pk: P-256 key; jwt: RSA key) on the shared profile verifier.
+func (v *opVerifiers) assertionOf(clientID, issuer string) error {
+	ctx := op.ContextWithIssuer(context.Background(), issuer)
+	req, err := op.VerifyJWTAssertion(ctx, assertion(clientID, issuer), v.profile)
+	if err != nil {
+		return err
+	}
+	if req.Issuer != clientID {
+		return fmt.Errorf("crosstalk: assertion of %s verified as %s", clientID, req.Issuer)
+	}
+	return nil
+}
+
+// forgedAssertion: iss = victim, signed with the other client's key under the other client's kid.
+func (v *opVerifiers) forgedAssertion(victim, signer, issuer string) error {
+	now := time.Now()
+	k := opdrv.ClientKey(signer)
+	if signer == "c20pk" {
+		k = pkKey
+	}
+	a := opdrv.Assertion(k, victim, victim, []string{issuer}, now.Add(-5*time.Second), now.Add(10*time.Minute), nil)
+	_, err := op.VerifyJWTAssertion(op.ContextWithIssuer(context.Background(), issuer), a, v.profile)
+	if err == nil {
+		return fmt.Errorf("crosstalk: an assertion naming %s but signed with the key of %s verified on the shared verifier", victim, signer)
+	}
+	return nil
+}
+
+func runExtraVerifiers(run *ev.Run) {
+	x, err := newExtraWorld("PV", false)
+	if err != nil {
+		run.HarnessBug("extra world: " + err.Error())
+		return
+	}
+	v := newOPVerifiers(x.w.Storage, opIssuer)
+	var w watch
+	v.watch(&w, "shared")
+	before := w.snap()
+	steps := []struct {
+		name string
+		fn   func() error
+	}{
+		{"assertion:c20pk", func() error { return v.assertionOf("c20pk", opIssuer) }},
+		{"assertion:jwt", func() error { return v.assertionOf("jwt", opIssuer) }},
+		{"forged:c20pk-by-jwt", func() error { return v.forgedAssertion("c20pk", "jwt", opIssuer) }},
+		{"forged:jwt-by-c20pk", func() error { return v.forgedAssertion("jwt", "c20pk", opIssuer) }},
+	}
+	// every order of the four calls on ONE verifier
+	for pi, perm := range permutations(len(steps)) {
+		var order []string
+		for _, si := range perm {
+			st := steps[si]
+			order = append(order, st.name)
+			run.Eval()
+			var e error
+			if catchExtra(run, func() { e = st.fn() }) {
+				break
+			}
+			caseIdx := int64(extraBase + 970_000 + pi)
+			if e != nil {
+				key := "C20:behaviour-changed-by-earlier-call:shared-JWTProfileVerifier"
+				run.Violation(key, caseIdx, fmt.Sprintf("on a JWT-profile verifier used for several clients, step %s fails after the steps before it: %v", st.name, e), map[string]any{"order": order})
+				break
+			}
+			for _, ch := range diff(before, w.snap()) {
+				run.Violation(ch.Key, caseIdx, "a verification wrote into the verifier object it was handed: "+ch.Name, map[string]any{"order": order, "change": ch})
+			}
+			run.Observed("extra:shared-verifier-step-judged")
+		}
+		run.Distinct(fmt.Sprintf("shared-verifier-order|%v", perm))
+	}
+}
+
 func runExtra(run *ev.Run) {
 	markRace(extraBase)
 	runExtraPairs(run)
 	runExtraArgs(run)
 	runExtraKeyset(run)
+	runExtraVerifiers(run)
 }
